@@ -139,6 +139,9 @@ def r1_field_agreement(r, facts):
         def fam_subj(e):
             if fam.last_field(e) in ('sin6_family', 'sin_family', 'sa_family', 'ss_family'):
                 return True
+            if e[0] == 'call' and e[1].endswith('::read') and e[2] and any(x[0] == 'arg' and x[1] == 1 for x in subexprs(e)) and \
+                    any(x[0] == 'proj' and fam.last_field(x) in ('sin6_family', 'sin_family', 'sa_family', 'ss_family') for x in subexprs(e[2][0])):
+                return True     # `addr_of!((*p).sin6_family).read()`
             return e[0] == 'call' and e[1].endswith('::read') and any(x[0] == 'arg' and x[1] == 1 for x in subexprs(e)) \
                 and any(x[0] == 'call' and x[1].rsplit('::', 1)[-1] in ('byte_offset', 'byte_add', 'offset', 'add') for x in subexprs(e))
         ok = True
@@ -180,6 +183,12 @@ def _start_offset(e):
             off += x[2][0][1]
         if x[0] == 'proj' and x[2][:1] == ('.1',) and x[1][0] == 'call' and 'split_at' in x[1][1] and x[1][2][1][0] == 'const' and x[1][2][1][1] is not None:
             off += x[1][2][1][1]
+        # a slice pattern `[first, rest @ ..]`: the sub-slice projection starts behind the matched elements
+        if x[0] == 'proj':
+            for p_ in x[2]:
+                m_ = re.match(r'^\[(\d+)\.\.', p_)
+                if m_:
+                    off += int(m_.group(1))
     return off
 
 
@@ -200,7 +209,8 @@ def r1b_unix_layout(r, facts):
         pairs += [(loc, t, dst, src) for dst, src in correlated_alternatives(w, [t['args'][0], t['args'][1]])]
     for loc, t, dst, src in pairs:
         kind = 'abstract' if 'as_abstract_name' in str(src) else ('pathname' if 'as_pathname' in str(src) else '?')
-        if kind == '?' and len(pairs) > len(copies) and not any(x[0] in ('arg', 'call', 'local') for x in subexprs(src)) \
+        if kind == '?' and len(pairs) > len(copies) and not any(x[0] in ('arg', 'local') for x in subexprs(src)) \
+                and not any(x[0] == 'call' and not x[1].startswith('std::ops::Index') for x in subexprs(src)) \
                 and any(x[0] == 'const' and (x[3] or '').startswith('&[u8; 0]') for x in subexprs(src)):
             continue  # the unnamed address: an empty constant slice, nothing is written
         wr[kind] = (_start_offset(dst), loc)
@@ -232,7 +242,8 @@ def r1b_unix_layout(r, facts):
         if blk['cleanup'] or tt['k'] != 'switch':
             continue
         e = er.operand(tt['discr'])
-        if any(x[0] == 'call' and x[1].endswith('::first') for x in subexprs(e)):
+        first_elem = e[0] == 'proj' and e[2] and e[2][-1] == '[0]' and 'from_raw_parts' in str(e)     # `[0, rest @ ..]`
+        if any(x[0] == 'call' and x[1].endswith('::first') for x in subexprs(e)) or first_elem:
             vals = {int(v): tg for v, tg in tt['targets']}
             if 0 in vals and 'abstract' in rdoff and rd.edge_dominates((b, vals[0]), rdoff['abstract'][1]):
                 ok = True
